@@ -1850,6 +1850,8 @@ class Interp:
                 return [(cfg, Const(d))]
             atom = ("isinstance", args[0], args[1])
             return [(cfg, App("isinstance", (args[0], args[1])))]
+        if fname == "vars" and len(args) == 1 and isinstance(args[0], ObjV):
+            return [(cfg, self.getattr(args[0], "__dict__", cfg, node))]
         if fname == "ast.iter_child_nodes" and len(args) == 1 and isinstance(args[0], NodeV):
             kids = []
             cls = getattr(ast, args[0].cls, None)
